@@ -7,13 +7,18 @@
                          including the `base_position` arithmetic
     C17_inside           every recorded span has both end points in `[0, len]`
     C17_span_*           which token-level span is recorded under each `SpanInfoKey`
-    C17_total_top        every element / text child of the document node has its span
-  Not proved here (see props.py): spans are ordered (`start ≤ end`) and fall on char boundaries
-  (needs the tokens to be in source order: a contract of the tokenizer), every node below the top
-  level has its spans, decoding the slice gives the value (character-level part: C02_content).
+    C17_total            every element, attribute, text, comment and PI of an accepted tree has
+                         its spans, at every depth (C17_total_top: the top-level instance used
+                         by the epilogues)
+    C17_ordered          `start ≤ end` for every recorded span and every error span, when the
+                         character-data tokens come in source order
+  Not proved here (see bin/props/C17.json): spans fall on char boundaries and slice to the spelling
+  (tokenizer), decoding the slice gives the value at tree level (character-level part: C02_content).
 -/
 import XotModel.Lemmas.ParseSpans
 import XotModel.Lemmas.ParseSpanKeys
+import XotModel.Lemmas.ParseSpanOrder
+import XotModel.Lemmas.ParseSpanTotal
 import XotModel.Lemmas.ParseWitnessData
 import XotModel.Lemmas.TokenShapeB
 
@@ -44,6 +49,20 @@ theorem C17_errors_content (attr : Bool) (base : Nat) (s : Str) (e : ContentErr)
 example : (build .document mismatchLen Env.fresh mismatch none).errSpan = some ⟨5, 6⟩ := by
   rw [build_eq_buildE]; decide +kernel
 example : TokenShape mismatchLen mismatch none := tokenShape_of_B (by decide +kernel)
+
+/-- C17_ordered: every recorded span and every error span satisfies `start ≤ end`, when prefix
+    and local-name spans abut the colon (token-shape contract) and the character-data tokens
+    come in source order. -/
+theorem C17_ordered {m : Mode} {len : Nat} {env : Env} {ts : List Token} {lexErr : Option Nat}
+    (hshape : TokenShape len ts lexErr) (hto : TextOrdered ts) :
+    (∀ p, build m len env ts lexErr = .ok p → ∀ e ∈ p.spans, e.2.start ≤ e.2.stop) ∧
+    (∀ e env', build m len env ts lexErr = .err e env' → e.span.start ≤ e.span.stop) := by
+  have h := build_ord m len env ts lexErr hshape.abuts hto
+  constructor
+  · intro p hp; rw [hp] at h; exact h
+  · intro e env' he; rw [he] at h; exact h
+
+example : TextOrdered goodDoc := textOrdered_of_B _ (by decide +kernel)
 
 /-! ### Which span is recorded under which key -/
 
@@ -95,16 +114,25 @@ theorem C17_span_pi (b : Builder) (target : StrSpan) (c : StrSpan) :
 /-- Every element child and every text child of the document node has its span recorded
     (`FwdSpans m i ks`: the children `ks`, numbered from `i`, have their `ElementStart` / `Text` keys). -/
 theorem C17_total_top {m : Mode} {len : Nat} {env : Env} {ts : List Token} {lexErr : Option Nat} {p : Parsed}
-    (hshape : TokenShape len ts lexErr) (hclose : NoStrayClose 0 ts) (h : build m len env ts lexErr = .ok p) :
+    (hshape : TokenShape len ts lexErr) (h : build m len env ts lexErr = .ok p) :
     FwdSpans p.spans 0 p.tree.kids :=
-  build_total_top hshape.tags hclose h
+  build_total_top hshape.tags h
 
-/-- Non-vacuity on `<p:a xmlns:p='u' b=''><!--c--><![CDATA[t]]></p:a>`: the spans of the element
-    name (`p:a`), the end tag, the attribute `b`, the comment body and the CDATA content. -/
+/-- C17_total: in whatever is accepted, EVERY node at every depth has its spans (`Covered`):
+    elements `ElementStart`, `ElementEnd` and, per attribute name, `AttributeName` /
+    `AttributeValue`; text nodes `Text`; comments `Comment`; PIs `PiTarget` and, when they have
+    content, `PiContent`. -/
+theorem C17_total {m : Mode} {len : Nat} {env : Env} {ts : List Token} {lexErr : Option Nat} {p : Parsed}
+    (h : build m len env ts lexErr = .ok p) : Covered p.spans [] p.tree :=
+  build_covered h
+
+/-- Non-vacuity on `<p:a xmlns:p='u' b='x&#10;y'><!--c-->t&lt;<![CDATA[c]]></p:a>`: the spans of the
+    element name (`p:a`), the end tag, the attribute `b` (name, and value between the quotes), the
+    comment body, and the text run from the start of `t&lt;` to the end of the CDATA content. -/
 example : let r := build .document goodDocLen Env.fresh goodDoc none
-    r.spanOf ⟨[0], .elementStart⟩ = some ⟨1, 4⟩ ∧ r.spanOf ⟨[0], .elementEnd⟩ = some ⟨43, 49⟩ ∧
-    r.spanOf ⟨[0], .attributeName 3⟩ = some ⟨17, 18⟩ ∧ r.spanOf ⟨[0], .attributeValue 3⟩ = some ⟨20, 20⟩ ∧
-    r.spanOf ⟨[0, 2], .comment⟩ = some ⟨26, 27⟩ ∧ r.spanOf ⟨[0, 3], .text⟩ = some ⟨39, 40⟩ := by
+    r.spanOf ⟨[0], .elementStart⟩ = some ⟨1, 4⟩ ∧ r.spanOf ⟨[0], .elementEnd⟩ = some ⟨55, 61⟩ ∧
+    r.spanOf ⟨[0], .attributeName 3⟩ = some ⟨17, 18⟩ ∧ r.spanOf ⟨[0], .attributeValue 3⟩ = some ⟨20, 27⟩ ∧
+    r.spanOf ⟨[0, 2], .comment⟩ = some ⟨33, 34⟩ ∧ r.spanOf ⟨[0, 3], .text⟩ = some ⟨37, 52⟩ := by
   rw [build_eq_buildE]; decide +kernel
 
 end XotModel.Props
